@@ -96,7 +96,7 @@ class PageFeatureProcessor:
         if (
             page.is_first_page
             and not has_column_headers
-            and document.rtf_page.border_first
+            and document.rtf_page.border_first is not None
         ):
             for col_idx in range(page_df_width):
                 page_attrs = self._apply_border_to_cell(
@@ -172,7 +172,7 @@ class PageFeatureProcessor:
                     )
         else:
             # Last page: use PAGE border_last
-            if document.rtf_page.border_last:
+            if document.rtf_page.border_last is not None:
                 # Only if this is truly the end (not just last page of a section,
                 # but for now we assume 1 section or last section)
                 # The original code checked `page_info["end_row"] == total_rows - 1`.
